@@ -1,3 +1,90 @@
-"""Registry-level texts of obligations/C04.json and C07.json (filled in at the end)."""
-C04_TEXT = dict(explanation="", not_covered=[], assumptions=[], trusted_base=[])
-C07_TEXT = dict(explanation="", not_covered=[], assumptions=[], trusted_base=[])
+"""Registry-level texts of obligations/C04.json and C07.json."""
+
+C04_TEXT = dict(
+    explanation=(
+        "The standard's definition of each hash is split into contracts that are proved separately on the unmodified "
+        "headers (portable build, SIMD macros removed exactly as tests/hash/main.c does) and compose to 'digest == standard digest "
+        "for every message and every partition into update calls': "
+        "I (*_init): chaining value == the standard's IV, nothing absorbed. "
+        "T (compression): one call of md5_transform / sha1_transform_generic / sha2_transform_block64|128_generic / "
+        "gost3411_2012_transform_n|_1_generic (and the run-time dispatchers) leaves hash' == spec_compress(hash, block), "
+        "the spec functions being written from RFC 1321, FIPS 180-4 and RFC 6986 (specs/*_spec.h; executed natively against the "
+        "published vectors and, for MD5/SHA, against Python's hashlib on every length 0..300 and against sin()/prime roots for the "
+        "constant tables: python3 harness/C04/spec_selftest.py); one job per source-alignment class and for block == ctx->buffer. "
+        "U (*_update, transform replaced by a block-logging contract): count' == count + n (128-bit for SHA-384/512; GOST: "
+        "buffer_usage), the bytes handed to the transform are exactly the complete blocks of tail||data in order, the new tail is "
+        "the rest, data is only read, the chaining value is untouched when no block completes. Because the postcondition depends "
+        "only on tail||data, composing U with itself covers every chunking, including empty updates. "
+        "F (*_final): the blocks fed are tail||0x80||0..0||bit length (one or two blocks exactly at the 55/56 resp. 111/112 boundary, "
+        "little-endian length for MD5, big-endian 64/128-bit for SHA; GOST: tail||0x01||0..0 declared with the tail's bit length, "
+        "then g_0 on the context's N and on Sigma in this order), digest == serialised final chaining value (truncated for "
+        "SHA-224/384, upper half for GOST-256), and every byte of the context is zero on return. "
+        "One-shot and hex entry points: exactly one init-update-final over the caller's span; 2*size hex digits + NUL inside the buffer. "
+        "All sequences are observed through ghost indices (stubs/hash_ghost.h), no quantifiers."),
+    not_covered=[
+        "SSE2/SSSE3/SSE4.1, SHA-NI, AVX/AVX2 transforms and the CPUID dispatch (intrinsics and inline assembly are outside CBMC; "
+        "compiled out with #undef __SSE2__ exactly like tests/hash/main.c); compiler/optimisation-level variants",
+        "T for multi-block calls of the SHA-2 transforms against the specification: the monolithic two-block equivalence does not "
+        "close (cvc5 returns error/unknown after 210-270 s, z3 and SAT never finish), a self-composition check (one call over 2 blocks == "
+        "two calls) needs 16 GB. Closed instead: one block (all alignment classes, aliasing shape, dispatcher) for every transform, "
+        "two blocks for SHA-1 (monolithic and by self-composition for 2 and 3 blocks); the block loop's carry statement "
+        "A = (hash[0] += A) ... is the same text in SHA-1 and SHA-2",
+        "GOST g_N step with the N and Sigma updates (gost3411_2012_transform_n[_generic]) against the specification: cvc5 gives up "
+        "(error/unknown) after 17 min, not registered. Closed: g_0 (gost3411_2012_transform_1[_generic], the same E/LPS pipeline "
+        "without the two 512-bit additions and without the alignment branch), the table identity Ax == L.P.S for all 2048 entries, "
+        "the constants C, and everything around the transforms (I, U, F); the 512-bit adders gost3411_2012_addmod512[_digit] are "
+        "therefore covered only by being executed inside U/F's replaced callee, i.e. not at all",
+        "GOST3411_2012_USE_SMALL_TABLES build variant (no job)",
+        "U safety half for an unbounded data_size is closed for MD5 only; for SHA-1/SHA-2/GOST a symbolic-length write inside the "
+        "448..864-byte context makes the unbounded formula 13.7 M variables and no back end finishes: replaced by an exact-size span "
+        "with data_size <= 66 (quick) / 2B+2 (thorough) and a symbolic entry tail",
+        "U content half is bounded (data_size <= 66, thorough also <= 2B+2 = 130 for the boundary tails; one job per entry tail length; "
+        "quick tier: tails 0, 1 and the padding-boundary residues B-9, B-8, B-1 (GOST: 0, 1, 62, 63), thorough tier: 12 further tail "
+        "lengths per algorithm - all B tail lengths would be about 7 CPU-hours). For the 128-byte block size the U jobs are in the "
+        "thorough tier only (7 min each with CaDiCaL, MiniSat > 15 min): in the quick tier sha2_update is covered through the 64-byte "
+        "block size (same code, the block size is a run-time field) and SHA-384/512 through I, T and F",
+        "sha2_init / hmac_sha2_init with a bits argument outside {224,256,384,512,28,32,48,64} leave hash_size and block_size "
+        "uninitialised (no default case, unlike gost3411_2012_init); the contracts require a valid size",
+        "message lengths >= 2^61 bytes for MD5/SHA-1/SHA-224/256 (the 64-bit bit counter of the standard wraps; the contract states the "
+        "length field as (count << 3) mod 2^64)",
+        "big-endian hosts (the code stores the MD5 length and GOST words through uint64_t; x86-64 little-endian model only)",
+    ],
+    assumptions=[
+        "CBMC 6.11 models pointers as (object, offset): the low bits of (size_t)pointer are the offset inside the object, which is "
+        "how the alignment classes of the T jobs are selected",
+        "term alignment of the specifications (documented in specs/*.h): MD5/SHA sums written in the association the solver needs, "
+        "Ch/Maj spelled with OR (proved equal to the FIPS spelling by job sha.lemma.ch_maj), SHA-256 schedule scratch laid out like "
+        "the library's under CBMC, GOST LPS in table form (proved entry by entry by job gost.tables); the native self test runs the same text",
+    ],
+    trusted_base=[
+        "specs/{md5,sha1,sha2,gost3411}_spec.h are RFC 1321 / FIPS 180-4 / RFC 6986 (checked natively against the published vectors: "
+        "python3 harness/C04/spec_selftest.py, or gcc -O1 -I/verif harness/C04/spec_selftest.c -lm)",
+        "cvc5 1.0.3 for the T jobs",
+    ],
+)
+
+C07_TEXT = dict(
+    explanation=(
+        "hmac_<alg>_init/_update/_final, the one-shot hmac_<alg>() and the *_hmac_get_digest[_str] wrappers are enforced against RFC 2104 "
+        "with the underlying hash replaced by its byte-stream contracts (init opens an empty stream, update appends data[0..n), final "
+        "records (stream, digest) in a ghost digest table, returns that arbitrary digest and zeroes the context): "
+        "after init the optional key-hash entry has input == key (taken iff key_len > B), the inner stream is (K' xor 0x36^B) and k_opad "
+        "== K' xor 0x5c^B with K' = key||0.. or H(key)||0..; update appends the message and leaves k_opad alone (frame); final records the "
+        "inner entry as the stream stood, an outer entry with input k_opad||inner digest, returns the outer digest, and leaves k_opad and "
+        "the hash context all-zero; the one-shot functions state the whole of RFC 2104 end to end. key_len, data_size and all contents are "
+        "symbolic and unbounded (every key length, not samples); SHA-2 and GOST for each digest size, the bits argument in bits or bytes, "
+        "*digest_size reported from the size saved before the zeroising final. The byte-stream contracts are the C04 I/U/F contracts seen "
+        "through the representation relation count == stream length, tail == last (length mod B) bytes, block log == the rest."),
+    not_covered=[
+        "the wipe of the local k_ipad in hmac_*_init (a dead local cannot appear in a postcondition); the wipe of k_opad and of the "
+        "hash context is proved",
+        "key == NULL with key_len == 0 (memcpy(k_ipad, NULL, 0) is formally undefined behaviour; the contracts give the empty key a valid pointer)",
+        "SIMD builds (see C04); the lifting of the byte-stream contracts from the block-level U/F contracts is an argument on paper "
+        "(representation relation above), enforced in C04 only at the bounded per-call lengths given there",
+        "include/proto/radius.h users of HMAC-MD5 (C15)",
+    ],
+    assumptions=[
+        "hash primitives replaced by byte-stream contracts (contracts/<alg>.h, VF_HASH_STREAM), discharged by C04 I/U/F/T",
+    ],
+    trusted_base=[],
+)
